@@ -301,4 +301,36 @@ def storeAfterMixed (N : Nat) (E : Exp) (k : Nat) : Nat → Doc
   | 0 => storeAfterCycles N E k
   | m + 1 => flatten N (storeAfterMixed N E k m) 0
 
+/-! ## explicitly empty collections
+
+A list-valued option (`workflowAttributes.restartHookOn`, `shutdownOn`, `executors.pre` …) is a LEAF of the flattened
+option dictionary: `override_object` replaces a list as a whole by the narrower layer.  An explicitly empty list
+(`restartHookOn: []`, "never call the restart hook") is therefore an entry like any other, `path ↦ "[]"`, and it
+shadows whatever a blueprint (or the built-in default) gives for that path; *absent* (`get? = none`) and
+*present and empty* are different descriptions.  `store_unreplicated_flowir_to_disk` dumps the flattened
+description as it is.  `compress` is `FlowIR.compress_flowir` on the option leaves (drop every entry whose value is
+an empty collection) — NOT what the store does (the call is commented out in conf.py); it is modelled only to
+state in `Witness.C07` that a store which drops empty collections breaks both clauses of the property. -/
+
+def dropEmpty (isEmpty : Tmpl → Bool) (d : Dict) : Dict := d.filter fun e => !isEmpty e.2
+
+def Layer.dropEmpty (isEmpty : Tmpl → Bool) (l : Layer) : Layer :=
+  ⟨St4sd.Instance.dropEmpty isEmpty l.glob, l.stages.map fun e => (e.1, St4sd.Instance.dropEmpty isEmpty e.2)⟩
+
+/-- `FlowIR.compress_flowir` restricted to what the model holds: option entries (blueprints, components, override
+blocks) whose value is an empty collection disappear -/
+def compress (isEmpty : Tmpl → Bool) (L : Doc) : Doc :=
+  { L with
+    bps := L.bps.map fun e => (e.1, e.2.dropEmpty isEmpty)
+    comps := L.comps.map fun c =>
+      if c.isDoc then c else
+      { c with opts := dropEmpty isEmpty c.opts
+               ovr := c.ovr.map fun o => { o with opts := dropEmpty isEmpty o.opts } } }
+
+/-- a store that compresses, and the experiment loaded from what it wrote -/
+def storeCompressed (isEmpty : Tmpl → Bool) (N : Nat) (E : Exp) : Doc := compress isEmpty (store N E)
+
+def reloadCompressed (isEmpty : Tmpl → Bool) (N : Nat) (E : Exp) : Exp :=
+  { doc := storeCompressed isEmpty N E, plat := E.plat, patches := [] }
+
 end St4sd.Instance
